@@ -124,7 +124,7 @@ def instance(cls, env):
 
 OPERAND_SLOTS = ["arith_left", "arith_right", "cmp_left", "cmp_right", "bool_right", "not", "neg", "in_term", "in_elem", "between_term", "between_lo",
                  "fn_arg", "case_when", "case_then", "case_else", "tuple_elem", "array_elem", "isnull", "where_root", "having_root", "on_root",
-                 "win_partition", "win_order", "select_arith", "select_fn_arg", "insert_value", "insert_row_last", "update_set_value", "orderby_expr", "groupby_expr", "conflict_target"]
+                 "win_partition", "win_order", "select_arith", "select_fn_arg", "insert_value", "insert_row_last", "update_set_value", "orderby_expr", "groupby_expr", "conflict_target", "values_fn_arg", "attz_field", "extract_field", "cast_arg"]
 DEFINING = ["select", "select_last", "returning", "distinct_on"]
 # the same operand slots with the enclosing expression as a select-list item (the one clause rendered with with_alias=True), and with it as
 # an aliased select-list item: the operand's alias must not appear, the item's own alias exactly once
@@ -218,6 +218,24 @@ def statement(cls_name, pos, X, as_selectable=False):
         return Q.into(t).columns("c").insert(X)
     elif pos == "insert_row_last":
         return Q.into(t).columns("c", "d").insert((1, 2), (3, X))
+    elif pos == "values_fn_arg":
+        from pypika_tortoise.terms import Values
+
+        if not isinstance(X, P.Field):
+            raise TypeError("Values takes a field")
+        return base.select(Values(X))
+    elif pos == "attz_field":
+        from pypika_tortoise.terms import AtTimezone
+
+        if not isinstance(X, P.Field):
+            raise TypeError("AtTimezone takes a field")
+        return base.select(AtTimezone(X, "UTC"))
+    elif pos == "extract_field":
+        from pypika_tortoise.enums import DatePart
+
+        return base.select(fn.Extract(DatePart.year, X))
+    elif pos == "cast_arg":
+        return base.select(fn.Cast(X, "INT"))
     elif pos == "conflict_target":
         return Q.into(t).columns("c").insert(1).on_conflict(X).do_nothing()
     elif pos == "update_set_value":
